@@ -28,3 +28,26 @@ Theorem C01_not_stuck : forall c o, wfb c = true -> (forall y, maxpar_of c y <> 
   fst (run sched_params c o) <> Stuck.
 Proof. exact (fun c o Hw Hc => never_stuck sched_params c eq_refl (wfb_wf c Hw) eq_refl Hc o). Qed.
 Print Assumptions C01_not_stuck.
+
+(* ---- the serial backend without any completion oracle: SerialRunner completes the oldest submitted task, alone, in every
+   polling round (Model/Serial.v; compared with real serial runs by Serial.check_serial).  Its run is a run of the abstract
+   runner (refinement), so every statement proved for all oracles holds for it; it always ends within |plan| rounds, is never
+   stuck, and returns the reference values. *)
+Require Import LT.Model.Serial LT.Proofs.SerialProofs.
+Theorem C01_serial_refines : forall c rels, exists o, run sched_params c o = serial_run sched_params c rels.
+Proof. exact (serial_run_is_a_run sched_params). Qed.
+Print Assumptions C01_serial_refines.
+
+Theorem C01_serial_returns_reference : forall c rels r,
+  wfb c = true -> store_sound c -> (forall t, In t (req c) -> pure c t <> None) ->
+  fst (serial_run sched_params c rels) = Returned r ->
+  map (fun kv => (fst kv, Some (snd kv))) r = map (fun t => (t, pure c t)) (dedup (req c)).
+Proof. exact (serial_returns_reference sched_params eq_refl eq_refl). Qed.
+Print Assumptions C01_serial_returns_reference.
+
+(* the serial run always ends on its own: within |plan| polling rounds, never stuck, never on a completion it was not given *)
+Theorem C01_serial_ends : forall c rels, wfb c = true -> (forall y, maxpar_of c y <> Some 0) ->
+  (fst (serial_run sched_params c rels) <> OutOfOracle) /\ (fst (serial_run sched_params c rels) <> Stuck) /\
+  (fst (serial_run sched_params c rels) <> BadOracle).
+Proof. exact (serial_ends sched_params eq_refl eq_refl). Qed.
+Print Assumptions C01_serial_ends.
